@@ -6,13 +6,16 @@ package main
 
 import (
 	"bytes"
+	"crypto/sha256"
 	"encoding/hex"
 	"encoding/json"
 	"flag"
 	"fmt"
 	"math/rand"
 	"os"
+	"os/exec"
 	"path/filepath"
+	"strconv"
 	"strings"
 	"sync"
 	"time"
@@ -78,10 +81,72 @@ func count(class, key string) {
 	mu.Unlock()
 }
 
+var freshPerClass = 6
+
 var optionSets = []bebop.GenerateSettings{
 	{PackageName: "p"},
 	{PackageName: "p", GenerateUnsafeMethods: true, SharedMemoryStrings: true, GenerateFieldTags: true, PrivateDefinitions: true, AlwaysUsePointerReceivers: true},
 	{PackageName: "p", GenerateFieldTags: true},
+}
+
+var (
+	workDir    string
+	freshCount = map[string]int{}
+)
+
+func outcomeHash(out string, err error) string {
+	if err != nil {
+		return "ERR " + err.Error()
+	}
+	h := sha256.Sum256([]byte(out))
+	return "OK " + hex.EncodeToString(h[:])
+}
+
+// runOneshot is the child side of freshProcess.
+func runOneshot(arg string) {
+	t := strings.Split(arg, "|")
+	if len(t) != 4 {
+		fmt.Println("ERR bad oneshot argument")
+		return
+	}
+	text, err := os.ReadFile(t[0])
+	if err != nil {
+		fmt.Println("ERR", err)
+		return
+	}
+	mode, _ := strconv.Atoi(t[2])
+	oi, _ := strconv.Atoi(t[3])
+	f, _, err := bebop.ReadFile(bytes.NewReader(text))
+	if err != nil {
+		fmt.Println("ERR", err)
+		return
+	}
+	f.FileName = t[1]
+	gs := optionSets[oi]
+	gs.ImportGenerationMode = bebop.ImportGenerationMode(mode)
+	fmt.Println(outcomeHash(generate(f, gs)))
+}
+
+// freshProcess runs the same Generate call as the FIRST call of a new process and returns its outcome hash:
+// "a function of its input alone" excludes what the process generated before (tables built once, caches).
+func freshProcess(text []byte, fileName string, mode bebop.ImportGenerationMode, oi int) (string, bool) {
+	if workDir == "" {
+		return "", false
+	}
+	os.MkdirAll(workDir, 0o755)
+	tf, err := os.CreateTemp(workDir, "oneshot*.bop")
+	if err != nil {
+		return "", false
+	}
+	defer os.Remove(tf.Name())
+	tf.Write(text)
+	tf.Close()
+	cmd := exec.Command(os.Args[0], "-oneshot", fmt.Sprintf("%s|%s|%d|%d", tf.Name(), fileName, int(mode), oi))
+	out, err := cmd.Output()
+	if err != nil {
+		return "", false
+	}
+	return strings.TrimSpace(string(out)), true
 }
 
 func generate(f bebop.File, gs bebop.GenerateSettings) (string, error) {
@@ -207,6 +272,16 @@ func checkSchema(class string, text []byte, fileName string, modes []bebop.Impor
 					fail("oracle", "error-text", text, "Validate", refV.Error(), v.Error(), "the error text of Validate differs between calls")
 				}
 			}
+			// the same call as the first one of a fresh process (a bounded number of schemas per class: a process each)
+			if fk := fmt.Sprintf("%s/%d/%d", class, mode, oi); freshCount[fk] < freshPerClass {
+				freshCount[fk]++
+				if got, ok := freshProcess(text, fileName, mode, oi); ok {
+					if want := outcomeHash(ref, refErr); got != want {
+						fail("oracle", class, text, "Generate (fresh process)", want, got, fmt.Sprintf("option set %d, mode %d: the result depends on what the process generated before", oi, mode))
+					}
+					count(class+"/fresh-process", key+fk)
+				}
+			}
 			// concurrent calls sharing one File value (the race detector watches)
 			var wg sync.WaitGroup
 			outs := make([]string, workers)
@@ -266,7 +341,13 @@ func main() {
 	repo := flag.String("repo", "/repo", "")
 	out := flag.String("out", "", "")
 	replay := flag.String("replay", "", "")
+	oneshot := flag.String("oneshot", "", "internal: <schema file>|<file name for imports>|<mode>|<option set>: print the hash of ONE Generate call, the first of this process")
 	flag.Parse()
+	if *oneshot != "" {
+		runOneshot(*oneshot)
+		return
+	}
+	workDir = *work
 	if *replay != "" {
 		b, _ := os.ReadFile(*replay)
 		var f failure
@@ -289,6 +370,7 @@ func main() {
 	nGen, reps, workers := 25, 6, 8
 	if *tier == "thorough" {
 		nGen, reps, workers = 250, 12, 16
+		freshPerClass = 40
 	}
 	both := []bebop.ImportGenerationMode{bebop.ImportGenerationModeSeparate, bebop.ImportGenerationModeCombined}
 	// 1. generated schemas (every construct, random layouts), no imports
